@@ -1,6 +1,7 @@
 """C12 — migration matrices agree pointwise with the graph's migrations."""
 from __future__ import annotations
 
+import copy
 import math
 from fractions import Fraction
 
@@ -49,6 +50,7 @@ def pointwise_ok(g, mm, ends):
 def run(ctx):
     n = 1000 if ctx.tier == "quick" else 15000
     done = 0
+    accepted_mutants(ctx)
     while done < n and ctx.time_left() > 5:
         batch = gen_valid_graphs(ctx, min(250, n - done), corpus=True, max_demes=6 if ctx.tier == "quick" else 8)
         done += len(batch)
@@ -83,6 +85,41 @@ def run(ctx):
                 if why:
                     ctx.violation(f"migration_matrices of g.{expr.split('(')[0]}(...): " + why, {"document": doc, "derived_by": expr},
                                   python=py_repro(doc, f"g.{expr}.migration_matrices()"))
+
+
+def accepted_mutants(ctx):
+    """every graph the library hands out is, for C12, a valid graph: rule-directed mutants of valid documents (rates and
+    symmetric groups pushed over the ingress bound, overlapping windows, ...) that the library ACCEPTS must satisfy the
+    relation too — in particular no row may sum to more than one (on the unchanged tree resolve_valid + matrices_rows_le_one
+    say this cannot fail)"""
+    import gen_graphs as G
+    import gen_mutations as M
+    n = 150 if ctx.tier == "quick" else 3000
+    for _ in range(n):
+        m = G.gen_model(ctx.rng, max_demes=5)
+        base = G.spell(m, ctx.rng, level=ctx.rng.choice([0, 0.5, 1]))
+        for _k in range(3):
+            op = ctx.rng.choice([M.m_sym_big_rate, M.m_rate, M.m_overlap_migration, M.m_migration_shape])
+            d = copy.deepcopy(base)
+            try:
+                t = op(d, ctx.rng, [])
+            except Exception:  # noqa: BLE001
+                t = None
+            if t is None:
+                continue
+            c = impl.resolve(d)
+            if c[0] != "ok":
+                continue
+            g = c[2]
+            ctx.count(show(canon(g.asdict())), len(g.migrations) > 0, tags=["accepted_mutant:" + str(t).split(":")[0]])
+            try:
+                mm, ends = g.migration_matrices()
+                why = pointwise_ok(g, mm, ends)
+            except Exception as e:  # noqa: BLE001
+                why = f"raises {type(e).__name__}"
+            if why:
+                ctx.violation("migration_matrices of a graph the library returned: " + why, {"document": d},
+                              python=py_repro(d, "g.migration_matrices()"))
 
 
 def replay(ctx, payload):
